@@ -1,7 +1,7 @@
 (* GenPropsStrConv.v -- C09 (orders, int / code conversions) and the constructor part of C17
    transported to the functions regenerated from /repo/src/smt_strings.rs (SVG.StrConvGen).
    [w s] is the vector of an SmtString; [fuel_of s1 s2] = 1 + min(len s1, len s2) loop tests. *)
-Require Import Base GenBase StrConv StrConvProofs Literal.
+Require Import Base GenBase StrConv StrConvProofs Literal StrSearch StrMisc StrMiscProofs.
 From SVG Require Import StrConvGen GenLinkStrConv.
 Open Scope N_scope.
 
@@ -70,7 +70,7 @@ Proof.
 Qed.
 
 Lemma made_some a v : made a = Some v -> v = a.
-Proof. unfold made. destruct (Nat.ltb MAXLEN (length a)); congruence. Qed.
+Proof. rewrite made_spec. destruct (Z.of_nat (length a) <=? 2147483647)%Z; congruence. Qed.
 
 Lemma g_from_slice_good a s : M_SmtString_from_slice_u32 a = Some s -> w s = map clampc a /\ goodw (w s).
 Proof.
@@ -112,6 +112,25 @@ Proof.
   exists s. split; [reflexivity|]. cbn [option_map] in L. injection L as L. rewrite L.
   split; [reflexivity | exact (clamp_good [x])].
 Qed.
+
+(* ---- is_good: exactly the strings of SMT characters not longer than i32::MAX, the bound of make ---- *)
+Lemma g_is_good_iff s : M_SmtString_is_good s = Some true <->
+  goodw (w s) /\ (Z.of_nat (length (w s)) <= StrSearch.MAX_LENGTH)%Z.
+Proof. rewrite link_is_good, <- is_good_iff. split; congruence. Qed.
+
+Lemma g_is_good_total s : exists b, M_SmtString_is_good s = Some b.
+Proof. rewrite link_is_good. eauto. Qed.
+
+Lemma g_made_is_good a s : M_SmtString_make a = Some s -> goodw a -> M_SmtString_is_good s = Some true.
+Proof.
+  intros H G. pose proof (link_make a) as L. rewrite H, made_spec in L. cbn [option_map] in L.
+  apply g_is_good_iff.
+  destruct (Z.of_nat (length a) <=? 2147483647)%Z eqn:E; [|discriminate L].
+  injection L as L. rewrite L. split; [exact G|]. apply Z.leb_le in E. exact E.
+Qed.
+
+Lemma g_char s i : M_SmtString_char s i = nth_error (w s) i.
+Proof. reflexivity. Qed.
 
 Example g_example :
   M_fn_str_lt 3 (SmtString_mk [97; 98]) (SmtString_mk [97; 99]) = Some true /\
